@@ -256,7 +256,7 @@ func (x *Explorer) answerFor(q *gw.Req) gw.Action {
 		switch {
 		case pq == nil || !okOld || cur == nil:
 			a.Text, a.Abs = `{"result":{"events":[]}}`, "qresult\tnone"
-		case fault:
+		case fault && !pq.exposed[key]:
 			// the service fails to answer: for this variant the announced state stays what it was
 			x.Truth[key] = old[key]
 			if x.R.Intn(2) == 0 {
@@ -264,7 +264,7 @@ func (x *Explorer) answerFor(q *gw.Req) gw.Action {
 			} else {
 				a.Text, a.Abs = `{"error":{"code":"system.internalError","message":"boom"}}`, "err\tsystem.internalError"
 			}
-		case x.R.Intn(9) == 0:
+		case x.R.Intn(9) == 0 && !pq.exposed[key]:
 			// an improper answer (a value that is no RES value, after proper ones): discarded as a whole, so for this variant the
 			// announced state stays what it was
 			x.Truth[key] = old[key]
@@ -322,6 +322,16 @@ func (x *Explorer) answerFor(q *gw.Req) gw.Action {
 			c = x.Truth[rest+"?"+normQ]
 		}
 		if normQ != "" && c != nil && !(fault) {
+			// (a consistent service: once a get answer has shown the state a pending query event announced, that state stands -
+			// the query request for this variant is then answered properly, not failed)
+			for _, pq := range x.pendingQuery {
+				if name(pq.n) == rest {
+					if pq.exposed == nil {
+						pq.exposed = map[string]bool{}
+					}
+					pq.exposed[rest+"?"+normQ] = true
+				}
+			}
 			body := contentJSON(c)
 			a.Text = `{"result":` + body[:len(body)-1] + `,"query":"` + normQ + `"}}`
 			a.Abs = "get\t" + c.Abs() + "\tnorm=" + gw.AbsRID(rest+"?"+normQ)
@@ -1173,8 +1183,9 @@ func (x *Explorer) referenced(n int) bool {
 }
 
 type pendingQ struct {
-	n   int
-	old map[string]*gw.Content
+	n       int
+	old     map[string]*gw.Content
+	exposed map[string]bool // variants whose new state a get answer has shown since the query event: their query request must not fail
 }
 
 // queryOpen reports whether the gateway still has unanswered query requests (or has not yet sent them) for the subject.
